@@ -131,7 +131,7 @@ pub fn run(ctx: &Ctx) -> CheckOutput {
     }
     // structured phase histories, every window length
     for kind in VIEWS {
-        for n in if quick { vec![2usize, 3, 5, 8, 9, 13] } else { (1..=16).chain([20, 33]).collect() } {
+        for n in if quick { vec![2usize, 3, 5, 8, 9, 13, 17, 24] } else { (1..=18).chain([20, 24, 33, 40]).collect() } {
             let spec = Spec::un(kind, n, Spec::echo());
             let phases = if quick { 3 } else { 4 };
             jobs.push(Box::new(move || {
